@@ -1,4 +1,4 @@
-CONSTANTS MaxLines = 7 MaxDepth = 3 Mode = "valid" UnitKinds = {"module", "program", "sub", "fun"} ConstructKinds = {"block", "do", "if"}
+CONSTANTS MaxLines = 7 MaxDepth = 3 Mode = "valid" UnitKinds = {"module", "submodule", "program", "sub", "fun"} ConstructKinds = {"block", "do", "if"}
 SPECIFICATION SpecValid
 VIEW View
 INVARIANT WellNested
